@@ -5,9 +5,33 @@ import os
 
 HERE = os.path.dirname(os.path.dirname(os.path.abspath(__file__)))
 
-HOOK_COMMITS = ["6e1d5dd", "092527b", "70942f2", "7e1ebbc", "243e756"]
+HOOK_COMMITS = ["6e1d5dd", "092527b", "70942f2", "7e1ebbc", "243e756", "1deda3c"]
 
 CHECKS = {
+    "C04": dict(
+        text="Partial: decides (a) every solver configuration / start density / restart history reaches the same result class per geometry. TLC enumerates the walks of SCFHistory (sequences of solves over neighbouring geometries x start density {cold, density of the previous solve, perturbed} x 10 solver configurations incl. SP2, Pulay, fixed/adaptive mixing, UHF singlet, loose/tight thresholds); PathIndependent holds on the model given C03's FlagTruthful and the premise of a single stable closed-shell solution. Exported walks are replayed on the real code; all unflagged solves at one geometry must agree in energy, forces, charges and occupied orbital energies within K*max(eps_i,eps_j)+floor.",
+        note="Not decided: monotone approach to the limit under tightening. K is calibrated (largest observed ratio recorded in the evidence); premise: small near-equilibrium closed-shell molecules. Each solve is also covered by C03's residual predicates.",
+        tech="explicit TLA+ model (SCFHistory) enumerated by TLC; exported walks replayed on the real solvers, result classes compared",
+        ref="DESIGN.md §4 C04",
+    ),
+    "C07": dict(
+        text="Partial: decides acceptance of caller-supplied differentiable parameters (leaf, non-leaf network output, callable of the geometry) and reachability of the caller's tensor by reverse-mode differentiation of Etot/Hf (every backward mode) and of orbital energies, gap, charges (implicit / unrolled mode), plus that a geometry-dependent parameter changes the force. TLC checks ParamFlow (link of the parameter tensor through call -> merge -> copy -> integrals -> SCF stage) for every method x parameter name x source x backward mode; the shipped deep copy is refuted as a spec mutant. Each exported row is replayed on the real Energy module (C/N/O/H molecule) and the gradient of each output w.r.t. the caller's leaf is projected to {raised, none, zero, nonzero, nonfinite}.",
+        note="Not decided: gradients equal finite differences; Hessian symmetry (numeric).",
+        tech="explicit TLA+ model (ParamFlow) checked by TLC; one replay per exported row with autograd reachability projection",
+        ref="DESIGN.md §4 C07",
+    ),
+    "C14": dict(
+        text="Partial: decides Etot = Eelec + Enuc (+ active excitation energy), Hf = Etot - Eiso + atomic heats (the spec's own MOPAC table), gap = LUMO - HOMO of ascending orbital energies (per spin for UHF), charges follow from the density diagonal and sum to the molecular charge, electron count, and the currency of every published attribute. TLC checks Publish (paths x published attribute sets: Current) and evaluates the linear identities on fixed-point integers (1e-6 eV / 1e-6 e) logged from the real API after the second of two calls on one molecule object at different geometries: molecules/ions/padded batches x MNDO/AM1/PM3/PM6_SP x solvers x RHF/UHF x CIS/RPA active states x XL-BOMD path.",
+        note="Not decided: orbital energies are eigenvalues of the reported Fock operator; dipole formula and its translation behaviour.",
+        tech="explicit TLA+ module (Publish) whose identities TLC evaluates on fixed-point logs of the real published attributes",
+        ref="DESIGN.md §4 C14",
+    ),
+    "C16": dict(
+        text="Partial: decides the per-molecule bookkeeping of the batched Davidson solver (finished only when all roots passed the residual test, finished results frozen, subspace bound, collapse/expansion arithmetic, cap raises), ordering/positivity, RPA <= CIS; monitors orthonormality, residual, agreement with a dense diagonalisation and independence of start guess / amplitude reuse / number of roots / batch composition. TLC checks Davidson incl. liveness (the coded StagnationExit violates DoneMeansConverged on the model); every recorded solve (hooks dav.*) is validated against the model by TLC (DavidsonTrace), and a stagnation exit with residual above tolerance is a violation.",
+        note="The dense reference matrix is assembled with the code's own sigma routine (nov <= 40), so 'eigenpair of the true response matrix' is not decided independently. RPA and heterogeneous-batch solvers are checked at API level only.",
+        tech="explicit TLA+ model (Davidson) checked by TLC; hook traces of the real solver validated by TLC (DavidsonTrace); monitored eigenpair predicates",
+        ref="DESIGN.md §4 C16",
+    ),
     "C17": dict(
         text="Partial: decides hop bookkeeping, trivial-crossing permutation, frustrated hop = no change, per-trajectory isolation, probability bounds, exact energy conservation and smaller-root choice; norm preservation only for zero coupling. TLC checks FSSH (two trajectories, three states; per step and trajectory a TLC-chosen trivial-crossing permutation, hop target and kinematics with exact rational velocity rescaling): SwapIsPermutation, FrustratedNoChange, EnergyExact, SmallerRoot, HoldoffBlocksHop, Isolation, PotentialTracksActive, decoherence on/off; sgn(0)=0 and swap-applied-to-all mutants are refuted. Thousands of exported behaviours are replayed on the real SurfaceHoppingDynamics._after_electronic_update / _attempt_hop / _rescale_velocity_along_nac (dummy dynamics objects as in the repository's tests; random draw, crossing mask, coupling vector and gap are the behaviour's inputs): active state, amplitude slots, hold-off, previous state, velocities (exact rationals, 1e-12), potential, hop log must equal the model's. _attempt_hop alone is driven over a dyadic grid.",
         note="Not decided: RK4 norm preservation for non-zero coupling. One atom per trajectory, masses {1,2}, integer vectors, at most one accepted stochastic hop per trajectory; the hold-off tick of _do_integrator_step is performed by the driver; for v.d = 0 either root is accepted.",
